@@ -87,7 +87,7 @@ PROPS = {
                 rule="pairs of complete runs (scaler s vs explicitly scaled objective) compared bit-for-bit, s=10^u u in [-3,3] and the packaged scaler; non-trivial = >=2 iterations",
                 explanation="theorem C17_scaler_equiv on the driver model; bit-exact driver correspondence with scalers",
                 assumptions=COMMON_ASSUME),
-    "C18": dict(monitor=D1, level="proof", corr=["driver"],
+    "C18": dict(monitor=D1, level="proof", corr=["driver", "driver:upd"],
                 rule="runs (pairs vs logged iterates and user gradients, bit-exact) and random positive-curvature pair sets for the diagonal utility; non-trivial = >=2 pairs",
                 explanation="theorem C18_pairs on the driver model + diag_spec; driver correspondence compares the pairs bit-for-bit",
                 assumptions=COMMON_ASSUME),
